@@ -13,6 +13,31 @@ CHECKS = {
             "Every value of the boundary alphabet, every container kind with 0/1/2/300 elements, all trees up to 3 (thorough 4) nodes, all nesting chains to depth 41 and all 8^3 mixed endings around depth 32 are pushed through the real V2 encoder, the real V1 encoder (public serialize_*1 API) and the reference encoder (V1/V2/mixed), decoded by the real and the reference decoder and compared in both directions; 10 000-deep inputs are decoded in a child process on a 256 KiB stack. Exhaustive inside the stated alphabet, nothing sampled.",
             "trusts refcodec (cross-validated in both directions on every value); values outside the alphabet (e.g. >4 GiB strings) not reached",
             "DESIGN.md §5 C01"),
+    "C02": ("busmc", "model_checking",
+            "explicit-state BFS over protocol events with the real Broker/Connection tasks as transition function, lock-step reference model (refbus) and observation monitors",
+            "All sequences of call (CallFunction / CallFunction2, serials {0,1}), abort, reply (every result, live / stale / bogus callee serial, from owner and from non-owners), destroy-service, destroy-object, re-creation and the three observable ways of disconnecting any of the 4 connections, for several version assignments, explored breadth-first to the fixpoint of the canonical state space (call entries bounded to 3). Every transition is executed on the real broker and compared with refbus: each connection's outputs (as a bag per step, payloads by value across epochs) and the complete internal snapshot; an independent monitor requires that every CallFunctionReply a connection receives answers a call it made and that it gets at most one.",
+            "hash iteration order inside the broker is sampled, not enumerated (DESIGN 3.5b); state merging by cookie/serial renaming (3.4); SerialMap wrap-around out of reach",
+            "DESIGN.md §5 C02"),
+    "C03": ("busmc", "model_checking",
+            "explicit-state BFS (real broker as transition function) to fixpoint, lock-step against refbus plus snapshot invariants",
+            "2-3 connections (1.14 legacy, 1.17, 1.18, 1.20), object UUIDs {U1,U2}, service UUIDs {S1,S2}; create/destroy object and service (CreateService and CreateService2) with live-own, live-foreign, stale and never-issued cookies, the three observable disconnect ways, and from every reached state the probes QueryServiceVersion/Info, SubscribeEvent, SubscribeService, CallFunction for every cookie. The canonical state space is explored to its fixpoint. Oracles: refbus reply for reply, freshness of every cookie handed out (checked on raw values), and after every step the H1 invariants (objs<->obj_uuids and svcs<->svc_uuids bijections, ownership and cascade cross-references) and equality of the abstracted snapshot with the model.",
+            "as C02",
+            "DESIGN.md §5 C03"),
+    "C04": ("busmc", "model_checking",
+            "explicit-state BFS (real broker as transition function) to fixpoint, lock-step against refbus",
+            "Owner, two subscribers and a stranger at several version assignments (subscribe-all unsupported / supported); subscribe / unsubscribe for event ids {1,2}, subscribe-all, unsubscribe-all with and without serial, subscribe/unsubscribe service, on live and stale service cookies, a subscribe without serial (protocol violation), destroy service / object, re-creation, three disconnect ways of owner and subscribers; from every reached state the owner, a subscriber and the stranger emit each event id (probe). Explored to fixpoint. Oracles: exact fan-out per emit, owner notifications exactly on 0<->1 transitions (including those caused by disconnects), ServiceDestroyed notifications, subscription mirrors in the snapshot.",
+            "as C02; all-events-only subscribers are not required to get ServiceDestroyed (observation O1)",
+            "DESIGN.md §5 C04"),
+    "C05": ("busmc", "model_checking",
+            "explicit-state BFS (real broker as transition function), lock-step against refbus plus credit monitors and snapshot credit invariants",
+            "2-3 connections, 1-2 channels: create (sender first / receiver first with capacity in {0,1,4,5,6}), claim either end by anyone, close either end by anyone, SendItem by anyone, AddChannelCapacity in {0,1,5} by anyone (credit bounded to 12), disconnects; plus the overflow corner with capacities 2^32-2, 2^32-1 and grants 1, 2, 2^32-1. Oracles: refbus end state machine and credit arithmetic, every notification exactly once, monitor 'items forwarded <= initial + granted capacity', snapshot invariant sender credit <= receiver credit and equal at or below the low-water mark. The client half (real Sender/Receiver under schedules) is part of C06.",
+            "item ordering across in-flight items is not observable with one message per step; it is covered by the client-level check",
+            "DESIGN.md §5 C05"),
+    "C10": ("busmc", "model_checking",
+            "explicit-state BFS (real broker as transition function), lock-step against the plain filter semantics restated in refbus, plus ordering monitors",
+            "E-A: for each of 8 prepared bus states, all filter sets reachable by <= 4 (thorough 5) add/remove/clear operations over the 13 filters expressible with object UUIDs {U1,U2} and service UUIDs {S1,S2}, each followed by Start with the three scopes, stop, restart, destroy and foreign access, with an optional second started listener on the same connection; the cached flags are compared with their definition in every state. E-B: three listeners on two connections, filter add/remove, start/stop/destroy, two producers creating / destroying objects and services and disconnecting, BFS to depth 6 (8). Oracles: tagged current events exactly the matching entities then one marker; new events exactly once per connection; ordering monitors (creation before destruction, service events inside the object lifetime, nothing tagged after the marker).",
+            "as C02",
+            "DESIGN.md §5 C10"),
     "C07": ("codecmc", "exploration",
             "exhaustive enumeration of byte strings and complete single-edit families, differential against an independent reference decoder",
             "All byte strings of length <= 3 over all 256 bytes, length 4 (thorough 5) over an 80-symbol alphabet, and the complete single-edit family (every substitution, truncation, deletion, insertion; thorough: pairs) of every encoding of a corpus of small trees in V1/V2/mixed epochs are fed to decode, len, skip, split_off and kind of the real crate under catch_unwind with a counting allocator, and every answer is compared with the reference decoder (strict and UTF-8-blind); unknown-field / unknown-variant / opaque-element carriers are round-tripped wherever decoding succeeds.",
